@@ -35,7 +35,8 @@ UNIT = dict(
     defines=[(DT_H, ['NULL_VALUE', 'ADJ', 'BCD', 'REV', 'SIG', 'IGN', 'FIX', 'REQ', 'HCD', 'EXP', 'DAY', 'NUM', 'DAT', 'SPE', 'DUP', 'REZ', 'REMAIN_LEN'])],
     enums=[('src/lib/ebus/result.h', 'result_t'), (SYM_H, 'PredefinedSymbol', 'PredefinedSymbol', 'symbol_t'), (DT_H, 'OutputFormat', 'OutputFormatE')],
     structs=[dict(file=SYM_H, classes=['SymbolString'], cname='SymbolString', member_types={'m_data': 'vsym'}, is_self=False),
-             dict(parts=[(DT_H, 'DataType'), (DT_H, 'DateTimeDataType')], cname='DTT', skip=('m_id',))],
+             dict(parts=[(DT_H, 'DataType'), (DT_H, 'DateTimeDataType')], cname='DTT', skip=('m_id',)),
+             dict(parts=[(DT_H, 'DataType'), (DT_H, 'StringDataType')], cname='STT', skip=('m_id',))],
     cfg=dict(
         type_map={'ostream': 'struct tokout', 'OutputFormat': 'unsigned'},
         methods={'getDataSize': 'SymbolString_getDataSize', 'dataAt': 'SymbolString_dataAt'},
@@ -46,6 +47,10 @@ UNIT = dict(
         dict(file=SYM_H, inline_class='SymbolString', self='SymbolString', name='getDataSize', cname='SymbolString_getDataSize', cfg=_ss),
         dict(file=SYM_H, inline_class='SymbolString', self='SymbolString', name='dataAt', sig='(size_t index) const', cname='SymbolString_dataAt', cfg=_ss),
         dict(_inl, name='hasFlag', cname='DataType_hasFlag', static=True),
+        dict(_inl, name='hasFlag', cname='STT_hasFlag', static=True, self='STT'),
+        dict(file=DT_CPP, name='StringDataType::readSymbols', cname='STT_readSymbols', self='STT', cfg=dict(own_methods={'hasFlag': ('STT_hasFlag', 'self')}),
+             pre_subs=[(r'<< \(m_isHex \? hex : dec\);', '; if (m_isHex) { *output << hex; } else { *output << dec; }', 1)],
+             stream_out=dict(vars=['output'], min=6)),
         dict(file=DT_CPP, name='DateTimeDataType::readSymbols', cname='DTT_readSymbols', self='DTT',
              stream_out=dict(vars=['output'], str_macros=('NULL_VALUE',), min=15)),
     ],
@@ -61,5 +66,7 @@ def R(id, entry, enforce=None, replace=(), loops=False, props=('C05', 'C12', 'C2
 _D = ['SS_CAP=8']
 R('day', 'h_day', None, unwind=6, defines=_D, cost=120, timeout=1500)
 R('dtm', 'h_dtm', None, unwind=6, defines=_D, cost=200, timeout=1800)
+R('hexstr', 'h_hexstr', None, unwind=8, defines=_D, cost=20)
+R('charstr', 'h_charstr', None, unwind=8, defines=_D, cost=20)
 for _n in ('min', 'ttm', 'tth', 'ttq', 'bti', 'hti', 'vti', 'btm', 'htm', 'vtm', 'bda', 'bda3', 'hda', 'hda3'):
     R(_n, 'h_' + _n, None, unwind=6, defines=_D, cost=10)
